@@ -7,6 +7,7 @@ V: complete honest runs of all four types over the configuration space, every
    exact token layout (Messages.tla, with SHA-256 digests supplied next to the
    data) and validity under the issuer key (independent oracle)."""
 import vlib
+from checks import verdicts_common as vc
 from checks import issuance_common as ic
 
 
@@ -15,6 +16,8 @@ def run(ctx):
         ctx.prove("IssuanceProofs")   # unbounded (TLAPS): accepted => honest content under the pinned key; tokens ignore the blind; verify-exact
     ic.model_check(ctx, liveness=True)
     n, cases, kinds = ic.run(ctx, "C01", ["honest"])
+    # Verdicts.tla: every history of honest and refused requests on ONE long-lived issuer (and one request object per issuer side)
+    vn, vcases, vdepth = vc.run(ctx, ["t1issue", "t2issue", "t5issue", "t3issue"])
     return ctx.finish({
         "traces_validated_against_impl": n,
         "evaluations": len(cases),
@@ -23,6 +26,7 @@ def run(ctx):
                 "verification) for one (type, challenge length, batch size, origin length) with fresh keys' randomness; distinct = "
                 "distinct configurations (repetitions with fresh randomness are counted once)",
         "runs_by_kind": kinds,
+        **vc.coverage(vn, vcases, vdepth),
         "samples": [ic.short(c) for c in vlib.sample(cases, 4)],
         "exhaustive": False,
     }, [
@@ -32,4 +36,6 @@ def run(ctx):
 
 
 def replay(ctx, path):
+    if vlib.json.load(open(path)).get("family") == "verdicts":
+        return vc.replay(ctx, path)
     return ctx.replay_case(path, "issuance", "Trace_Issuance", cfg="Trace_Issuance_C01.cfg")
